@@ -2,12 +2,14 @@ package c20
 
 import (
 	"context"
+	"errors"
 	"fmt"
 	"runtime"
 	"strings"
 	"sync"
 	"testing"
 	"testing/synctest"
+	"time"
 
 	kitctx "github.com/dapr/kit/context"
 	"pgregory.net/rapid"
@@ -96,6 +98,17 @@ func runPool(t *testing.T, c poolCase) (out outcome, err error) {
 		}
 		newMember := func(ended bool) *member {
 			ctx, cancel := context.WithCancel(context.Background())
+			// members end in different ways: plain cancel, cancel with a cause, or a deadline that has (or has just)
+			// passed - the pool must only look at Done
+			switch len(ms) % 3 {
+			case 1:
+				c2, cc := context.WithCancelCause(context.Background())
+				ctx, cancel = c2, func() { cc(errVerifCause) }
+			case 2:
+				if ended {
+					ctx, cancel = context.WithDeadline(context.Background(), time.Now().Add(-time.Second))
+				}
+			}
 			m := &member{ctx: ctx, cancel: cancel}
 			if ended {
 				cancel()
@@ -348,6 +361,8 @@ func genCase(rt *rapid.T) poolCase {
 	c.Finish = rapid.SampledFrom([]string{"members", "members", "cancel"}).Draw(rt, "finish")
 	return c
 }
+
+var errVerifCause = errors.New("verif: member ended with a cause")
 
 func TestPoolHistories(t *testing.T) {
 	sec := vk.Sec("PoolHistories")
